@@ -47,6 +47,8 @@ int run_iscan(const Args& a) {
     uint64_t steppers = a.num("steppers", 20);
     uint64_t bursts = a.num("bursts", 10);
     Report rep(a.str("prop", "C10"), "seq_iscan", seed);
+    // C09 uses this workload for progress only (every cursor call must return); the results are C10's business
+    rep.mute_result_oracles(a.num("progress_only", 0) != 0);
     rep.set_rule("per tree (7 shape families): cursors with endpoints from stored keys/prefixes/successors/slice cuts, all endpoint kinds, both directions, "
                  "consumed to OK_SCAN_END or stopped after j steps; every produced (full_key,value) compared with the model interval in the requested "
                  "direction; argument validation compared with scan's range rules. Step-interleaved part: between two iscan_next calls of an early_abort "
